@@ -450,6 +450,7 @@ pub struct Violation {
 }
 
 fn run_case(f: RandomFn, choices: &[u32], obs: &mut Obs) -> Res {
+    crate::oracle::reset();
     let mut src = Src::new(choices);
     match guarded(|| f(&mut src, obs)) {
         Ok(r) => r,
